@@ -44,7 +44,7 @@ for pid in ids:
     nalist.append({"property_id": pid, "reason": na.get(pid, "contracts not completed (see DESIGN.md); no other technique substituted")})
 m = {
     "version": 1,
-    "setup_cmd": "cd /verif/govc && GOFLAGS=-mod=mod GOPROXY=off go build -o /verif/bin/govc .",
+    "setup_cmd": "cd /verif/govc && GOFLAGS=-mod=mod GOPROXY=off go build -o /verif/bin/govc . && cd /verif && (./bin/govc check -prop C40 -noevidence >/dev/null 2>&1 || true)",
     "hooks": {
         "guard": "verif",
         "enable": "contracts are comment-only files <pkg>/zz_contracts_verif.go with //go:build verif; GoVC loads /repo with -tags verif. No executable hook exists.",
